@@ -449,9 +449,18 @@ func ufCases(c *Ctx, n int, hostile bool) []json.RawMessage {
 }
 
 func checkC13(c *Ctx) {
-	c.rule = "MC: over all well-typed trees within bounds (every type at the top level and as element/key/value type of the first container level, reduced alphabet below, 0..2 elements, two fields after one another inside a struct) ToTree(ToBytes(t)) = t, ToBytes(ToTree(b)) = b, TreeLen = length, tags only where meaningful. TRACE: random field sequences from the typed value generator -> ConvertUnknownFields / GetUnknownFields -> WriteUnknownFields / UnknownFieldsLength, and random Go trees -> write -> convert; TLC compares every tree field by field (ID, Type, KeyType, ValType, Value) with ToTree and every output with ToBytes; trees with one node of a non-Thrift type at any position are refused by the length function and the writer, values without unknown fields by GetUnknownFields (an error, never a panic)."
+	c.rule = "MC: over all well-typed trees within bounds (every type at the top level and as element/key/value type of the first container level, reduced alphabet below, 0..2 elements, two fields after one another inside a struct) ToTree(ToBytes(t)) = t, ToBytes(ToTree(b)) = b, TreeLen = length, tags only where meaningful. TRACE: random field sequences from the typed value generator -> ConvertUnknownFields / GetUnknownFields -> WriteUnknownFields / UnknownFieldsLength, and random Go trees -> write -> convert; TLC compares every tree field by field (ID, Type, KeyType, ValType, Value) with ToTree and every output with ToBytes; truncated and perturbed inputs are accepted exactly when the reference accepts them; trees with one node of a non-Thrift type at any position are refused by the length function and the writer, values without unknown fields by GetUnknownFields (an error, never a panic)."
 	c.MC("MC_UnknownFields.tla", "MC_UnknownFields.cfg", 4)
-	c.TraceCheck(famUFC13, ufCases(c, c.Pick(1500, 30000), false))
+	cases := ufCases(c, c.Pick(1500, 30000), false)
+	// truncated / perturbed inputs: accepted exactly when the reference accepts them (a converter that swallows a
+	// cut input returns a tree that lost what was cut off), incl. every cut point of small inputs
+	cases = append(cases, ufCases(c, c.Pick(600, 10000), true)...)
+	for k := 0; k <= 12; k++ {
+		for sd := int64(1); sd <= 6; sd++ {
+			cases = append(cases, mustJSON(UFCase{Mode: "bytes", Seed: sd*7919 + c.Seed, N: 1 + int(sd)%3, Depth: 1 + int(sd)%3, Mut: "cut:" + itoa(k), Refl: sd%2 == 0}))
+		}
+	}
+	c.TraceCheck(famUFC13, cases)
 	c.Assume("doubles are compared by bit pattern (lanes); element ids are positional as the code assigns them")
 }
 
